@@ -72,12 +72,12 @@ def DT.bits : DT → Nat
 
 def DT.isFloat (d : DT) : Bool := d.kind == .f
 
-def intOf : Nat → DT
-  | 8 => .i8 | 16 => .i16 | 32 => .i32 | _ => .i64
-def uintOf : Nat → DT
-  | 8 => .u8 | 16 => .u16 | 32 => .u32 | _ => .u64
-def floatOf : Nat → DT
-  | 16 => .f16 | 32 => .f32 | _ => .f64
+def intOf (n : Nat) : DT :=
+  if n ≤ 8 then .i8 else if n ≤ 16 then .i16 else if n ≤ 32 then .i32 else .i64
+def uintOf (n : Nat) : DT :=
+  if n ≤ 8 then .u8 else if n ≤ 16 then .u16 else if n ≤ 32 then .u32 else .u64
+def floatOf (n : Nat) : DT :=
+  if n ≤ 16 then .f16 else if n ≤ 32 then .f32 else .f64
 
 /-- bits of the smallest float that holds every value of the dtype (`int8 → float16`, `int16 → float32`,
 wider integers → `float64`); a float needs itself -/
@@ -218,8 +218,9 @@ inductive PyVal where
 def castPy : PyVal → Option (DT × PyVal)
   | .bool b => some (.bool, .bool b)
   | .int n =>
-    if -(2 : Int) ^ 63 ≤ n ∧ n < (2 : Int) ^ 63 then some (.i64, .int n)
-    else if (2 : Int) ^ 63 ≤ n ∧ n < (2 : Int) ^ 64 then some (.u64, .int n)
+    -- int64 range, then uint64 range
+    if -9223372036854775808 ≤ n ∧ n < 9223372036854775808 then some (.i64, .int n)
+    else if 9223372036854775808 ≤ n ∧ n < 18446744073709551616 then some (.u64, .int n)
     else none
   | .float x => some (.f64, .float x)
 
